@@ -1,4 +1,5 @@
 \* events (v10) on a node without an L1 head, as coded: EXPECTED VIOLATION of NoInternalError
+\* measured (8 TLC workers shared over 3 runs): 64 distinct / 71 generated states, depth 4, 3.0s - ends with the expected violation of NoInternalError
 CONSTANTS NSubs = 1 NConn = 1 InitLen = 2 MaxLen = 4 MaxTag = 3 MaxReverts = 1 MaxL1 = 0 MaxPc = 0 MaxTx = 1 MaxGw = 0 MaxRecv = 0 MaxTicks = 0 MaxBack = 3 MaxGot = 6
   Ver = 10 Kinds <- KEvents StartAtL1 <- NoL1 NoLag = TRUE QuietSub = TRUE ReorgPrio = TRUE TeeStage = FALSE Window = FALSE FixL1None = FALSE FixL1Order = FALSE BlockIds <- BidsSmall
 INIT Init
